@@ -5,7 +5,7 @@
    over gen/GenConsts.v (values of the macros).  checks/c15.py runs the extracted functions against
    the implementation at L-1, L, L+1, 10L for every limit.
    "accepts n" = n items presented one after the other from the initial state are all lim_accepted:
-   in every theorem the L-th item IS lim_accepted and the (L+1)-th is the first one refused. *)
+   in every theorem the L-th item IS accepted and the (L+1)-th is the first one refused. *)
 From Coq Require Import ZArith NArith List Bool.
 From YV Require Import Base.Cmp gen.GenConsts gen.GenLimits Model.Limits Proofs.LimitsProofs.
 Import ListNotations.
